@@ -65,6 +65,11 @@ def one(sh, case, driver='generated'):
         for name, df, e, fac in (('amplitude x%g' % a, dfa, ea, a), ('rate x%g' % c, dfc, ec, 1.0)):
             kind = name.split()[0]
             if e is not None:
+                if attach.raised_inside(e, 'neurodsp/filt/'):
+                    # the filter design of the trusted base rejects the transformed configuration (e.g. "Invalid
+                    # transition band" at very low sampling rates): outside the domain of the statement
+                    sh.note('transformed_run_outside_filter_domain:' + kind)
+                    continue
                 vs.append({'mechanism': kind + '-run-raised', 'message': '%s: %r' % (name, e)})
                 continue
             d = compare(base, df, fac)
